@@ -56,3 +56,5 @@ func (d *DFPNSolver) VerifTable() []VerifEntry {
 
 // VerifAttacker is the attacker the solver settled on.
 func (d *DFPNSolver) VerifAttacker() tak.Color { return d.attacker }
+
+func VerifSaturatingAdd(l, r uint32) uint32 { return saturatingAdd(l, r) }
